@@ -4,6 +4,12 @@ from gcv import typestate
 from gcv.props import common
 
 PRIMS = ["context::Context::sweep_one", "<<context::Context as core::ops::drop::Drop>::drop::DropAll as core::ops::drop::Drop>::drop"]
+# collector primitives whose every abstract pre-state is interpreted by a transition table above: a destruct /
+# release below one of them is judged by that table's safety spec (it alarms iff the object may be strongly
+# reachable), so the who-may-call rule only has to exclude sites that no table covers
+TABLED = ["context::Context::" + m for m in (
+    "trace", "trace_weak", "upgrade", "resurrect", "backward_barrier", "backward_barrier_weak", "forward_barrier",
+    "forward_barrier_weak", "root_barrier", "mark_one", "link", "make_gray_again")]
 
 
 def run_config(chk, tier, cfgname):
@@ -33,9 +39,11 @@ def run_config(chk, tier, cfgname):
     common.protocol_rows(chk, prog, "O5-O8-protocol", ["collect_debt", "finish_cycle", "start_sweeping", "cycle_debt"],
                          per_method=False, aspects=("safety",))
     # O1 free-site discipline
-    n = common.confined(chk, prog, "O1-free-sites", "gc_ptr::GcPtr::drop_in_place", PRIMS, "value destructed outside sweep/arena drop")
+    n = common.confined(chk, prog, "O1-free-sites", "gc_ptr::GcPtr::drop_in_place", PRIMS + TABLED,
+                        "value destructed outside sweep/arena drop and outside every table-analysed primitive")
     n += common.confined(chk, prog, "O1-free-sites", "gc_ptr::GcPtr::dealloc",
-                         PRIMS + ["<gc::GcBuilder as core::ops::drop::Drop>::drop"], "block released outside sweep/arena drop/builder drop")
+                         PRIMS + TABLED + ["<gc::GcBuilder as core::ops::drop::Drop>::drop"],
+                         "block released outside sweep/arena drop/builder drop and outside every table-analysed primitive")
     chk.floor("free-sites", n, 3)
     slots, inits = prog.vtable_slots()
     chk.inst("O1-single-vtable-initialiser", "gc_ptr::GcVtable", len(set(inits)) == 1,
